@@ -357,7 +357,7 @@ class Weaver:
                 for r1 in r.split("+"):
                     if r1 not in RULES:
                         raise AnchorLoss("spec line %d: unknown rewrite rule %s" % (lineno, r1))
-                rw_expect[r] = int(c)   # "R2+R2b": the counts of the alternatives must sum to c
+                rw_expect[r] = None if c == "*" else int(c)   # "R2+R2b": the counts of the alternatives must sum to c; "*": any count
             else:
                 raise AnchorLoss("spec line %d: bad option %r" % (lineno, p))
         srcf = self.src(self.ctx_alias)
@@ -448,7 +448,7 @@ class Weaver:
         for r, c in rw_expect.items():
             got = sum(counts.get(r1, 0) for r1 in r.split("+"))
             declared |= set(r.split("+"))
-            if got != c:
+            if c is not None and got != c:
                 raise AnchorLoss("fn %s: rewrite %s matched %d times, expected %d" % (qname, r, got, c))
         for r, c in counts.items():
             if c and r not in declared:
